@@ -21,7 +21,7 @@ from . import fsx
 from .common import Check, Raw, cN, cZ, cbool, clist, cnat, copt, cpair, cstr
 
 IMPORTS = ("From Coq Require Import List NArith ZArith Bool.\n"
-           "From Verif Require Import Base.Val C18.Fs C18.Model_C18 C18.Spec_C18.")
+           "From Verif Require Import Base.Val C18.Fs C18.Model_C18 C18.Spec_C18 C18.Exact_C18.")
 ANCHORS = ["fs/ops.py::merge_contents", "fs/ops.py::copyfile", "fs/ops.py::do_link", "fs/ops.py::ensure_perms",
            "fs/ops.py::mkdir", "fs/contents.py::change_offset_rewriter", "fs/contents.py::contentsSet.iterdirs",
            "fs/fs.py::fsFile._can_be_hardlinked", "fs/livefs.py::gen_obj"]
@@ -718,7 +718,27 @@ def main(chk: Check):
 
     # ---- (A) model vs implementation inside Coq
     if ok and rows:
-        r0 = chk.coq_eval("merge", IMPORTS, "minput * obs", rows, ["mismatches run_case cases"], shard=20)
+        r0 = chk.coq_eval("merge", IMPORTS, "minput * obs", rows,
+                          ["mismatches run_case cases",
+                           # the domain of Prop_C18.merged_exact: NoAlias, normal return, all planned ops succeed
+                           "where_ (fun c _ => noalias (fst c) && negb (is_some (merge_err (fst c))) && plan_ok c) cases"],
+                          shard=20)
+        if r0 is not None:
+            dom = set(r0[1])
+            chk.cov["theorem_domain"] = {
+                "theorem": "merged_exact (NoAlias, merge returned normally, planned ops succeed)",
+                "cases_in_domain": len(dom), "cases": len(rows),
+                "cases_in_domain_touching_existing_paths":
+                    sum(1 for i in dom if any(("o",) + tuple(e["loc"]) in metas[i][1]["pre"] for e in metas[i][0]["cset"]))}
+            # inside the theorem's domain the statement must hold on the REAL tree without any known-finding
+            # class other than the two mtime ones the theorem does not claim
+            for i in sorted(dom):
+                case, res = metas[i]
+                devs = [c for c, _ in oracle(case, res["pre"], res["post"], res["t0"])
+                        if c not in ("symlink-mtime-not-set", "directory-mtime-bumped")]
+                if devs:
+                    chk.violation("property", {"what": "case inside the NoAlias domain of merged_exact deviates on the "
+                                                       "real tree: " + ", ".join(devs), "input": _case_json(case)})
         if r0 is not None and r0[0]:
             # second pass on the disagreeing cases only: which comparison failed
             sub = r0[0][:12]
